@@ -212,7 +212,8 @@ def rec_fill(rec):
 
 
 MODEL_FUNCS = {"sum", "nansum", "prod", "nanprod", "max", "nanmax", "min", "nanmin", "count", "mean", "nanmean",
-               "var", "nanvar", "std", "nanstd", "nanfirst", "nanlast", "all", "any", "first", "last"}
+               "var", "nanvar", "std", "nanstd", "nanfirst", "nanlast", "all", "any", "first", "last",
+               "argmax", "argmin", "nanargmax", "nanargmin"}
 REFUSALS = ("ValueError", "NotImplementedError", "ImportError")
 
 
